@@ -230,3 +230,45 @@ func HarnessC01Expr() {
 		neg.Execute(Context{"a": a, "b": b})
 	}
 }
+
+// (7) templates that name themselves: a file that (directly or through another file) includes,
+// extends, imports or ssi-parses itself, at compile time or - through a computed name - at
+// execution time. Whatever happens must be an error or output, never unbounded recursion.
+func HarnessC01Cycles() {
+	shapes := []map[string]string{
+		{"a": "x{% include \"a\" %}"},
+		{"a": "{% extends \"a\" %}{% block b %}{% endblock %}"},
+		{"a": "{% import \"a\" m %}{% macro m() export %}x{% endmacro %}"},
+		{"a": "{% ssi \"a\" parsed %}"},
+		{"a": "{% include \"b\" %}", "b": "y{% include \"a\" %}"},
+		{"a": "{% extends \"b\" %}", "b": "{% extends \"a\" %}"},
+		{"a": "{% import \"b\" mb %}{% macro ma() export %}{{ mb() }}{% endmacro %}{{ ma() }}", "b": "{% import \"a\" ma %}{% macro mb() export %}{{ ma() }}{% endmacro %}"},
+		{"a": "{% macro m() %}{% include \"a\" %}{% endmacro %}{{ m() }}"},
+		{"a": "{% if c %}{% include \"a\" %}{% endif %}"},
+		{"a": "{% include \"b\" %}", "b": "{% extends \"c\" %}", "c": "{% block q %}{% include \"a\" %}{% endblock %}"},
+		// at execution time, through a computed name
+		{"a": "z{% include n %}"},
+		{"a": "{% include nb %}", "b": "{% include n %}"},
+		{"a": "{% for i in l %}{% include n with l=l %}{% endfor %}"},
+		{"a": "{% include n if_exists %}"},
+		{"a": "{% include nb %}", "b": "{% ssi \"a\" parsed %}"},
+		// not cycles: the same file twice, a diamond - these must keep working
+		{"a": "{% include \"b\" %}{% include \"b\" %}", "b": "k"},
+		{"a": "{% include \"b\" %}{% include \"c\" %}", "b": "{% include \"d\" %}", "c": "{% include \"d\" %}", "d": "k"},
+	}
+	k := verifChoice(len(shapes))
+	verifObserve("shape", k)
+	set := NewSet("verif", &memLoader{files: shapes[k]})
+	tpl, err := set.FromFile("a")
+	if k >= len(shapes)-2 {
+		verifAssert(err == nil, "including one file twice (also through two other files) is not a cycle")
+		out, err2 := tpl.Execute(nil)
+		verifAssert(err2 == nil && out == "kk", "including one file twice must render it twice")
+		return
+	}
+	if err != nil {
+		return
+	}
+	_, err2 := tpl.Execute(Context{"n": "a", "nb": "b", "c": true, "l": []int{1, 2}})
+	verifAssert(err2 != nil, "a template that ends up executing itself without end must fail with an error")
+}
